@@ -314,3 +314,82 @@ func (m *Msg) Encode() string {
 	b.WriteString("\n")
 	return b.String()
 }
+
+// DecodeMsg reads the first message block of a wire text back into a model: the fields and
+// the ordered data / comment lines, as a spec-conforming line parser sees them (field name up
+// to the first colon, one leading space of the value dropped, a line starting with a colon is
+// a comment). It returns the model and the number of bytes consumed (up to and including the
+// blank line). ok is false if the text does not contain a complete block.
+func DecodeMsg(wire string) (m *Msg, n int, ok bool) {
+	m = &Msg{}
+	pos := 0
+	for pos < len(wire) {
+		i := pos
+		for i < len(wire) && wire[i] != '\n' && wire[i] != '\r' {
+			i++
+		}
+		if i == len(wire) {
+			return m, pos, false
+		}
+		line := wire[pos:i]
+		next := i + 1
+		if wire[i] == '\r' && next < len(wire) && wire[next] == '\n' {
+			next++
+		}
+		pos = next
+		if line == "" {
+			return m, pos, true
+		}
+		if line[0] == ':' {
+			v := line[1:]
+			if strings.HasPrefix(v, " ") {
+				v = v[1:]
+			}
+			m.Lines = append(m.Lines, Line{Comment: true, Text: v})
+			continue
+		}
+		name, value := line, ""
+		if c := strings.IndexByte(line, ':'); c >= 0 {
+			name, value = line[:c], line[c+1:]
+			if strings.HasPrefix(value, " ") {
+				value = value[1:]
+			}
+		}
+		switch name {
+		case "data":
+			m.Lines = append(m.Lines, Line{Text: value})
+		case "id":
+			m.HasID, m.ID = true, value
+		case "event":
+			m.HasType, m.Type = true, value
+		case "retry":
+			if ms, ok, _ := ParseRetry(value); ok {
+				m.RetryMs = ms
+			}
+		}
+	}
+	return m, pos, false
+}
+
+// Same reports whether two models describe the same message (retry values <= 0 are "none").
+func (m *Msg) Same(o *Msg) bool {
+	if m.HasID != o.HasID || m.ID != o.ID || m.HasType != o.HasType || m.Type != o.Type {
+		return false
+	}
+	a, b := m.RetryMs, o.RetryMs
+	if a < 0 {
+		a = 0
+	}
+	if b < 0 {
+		b = 0
+	}
+	if a != b || len(m.Lines) != len(o.Lines) {
+		return false
+	}
+	for i := range m.Lines {
+		if m.Lines[i] != o.Lines[i] {
+			return false
+		}
+	}
+	return true
+}
